@@ -114,6 +114,8 @@ def roll_call(r, case):
         return r.quantile(case["q"][0] / case["q"][1])
     if agg == "aggregate":
         return r.aggregate(case["func"])
+    if agg in ("std", "var") and case.get("ddof") is not None:
+        return getattr(r, agg)(ddof=case["ddof"])
     return getattr(r, agg)()
 
 
@@ -258,6 +260,8 @@ def model_lines(case):
         if kind == "rolling":
             agg = case["agg"]
             magg = {"std": "var", "aggregate": case.get("func")}.get(agg, agg)
+            if magg == "var" and case.get("ddof", 1) != 1:
+                magg = "var%d" % case["ddof"]
             hdr = {"op": "reset", "model": "rolling", "win": case["win"], "W": case["W"], "agg": magg}
             if agg == "quantile":
                 hdr["q"] = case["q"]
@@ -683,6 +687,8 @@ def roll_params(rng, i=None):
         p["q"] = rng.choice([[1, 4], [1, 2], [3, 4], [0, 1], [1, 1]])
     if a == "aggregate":
         p["func"] = rng.choice(["sum", "max", "mean"])
+    if a in ("std", "var") and rng.random() < 0.5:
+        p["ddof"] = rng.choice([0, 0, 1, 2])       # Rolling.std / Rolling.var forward their arguments to pandas
     return p
 
 
